@@ -32,11 +32,13 @@ Proof. exact load_agree. Qed.
      - a type that is named in the file version has a SHORT-NAME child;
      - every attribute is known for the type, in version, its value valid; every required attribute is present;
      - every enum value is listed for its spec and in version; every pattern value is within max_length, accepted by
-       the validator and UTF-8; every text item belongs to a type with character data;
+       the validator and UTF-8; every plain string is within max_length; every text item belongs to a type with
+       character data;
    for every element below the root (children_ok contains StrictValid of every child, recursively).
    PARTIAL, exactly: (a) the ROOT element's attributes are validated against the placeholder version Autosar_4_0_1
-   (the file version is read from them), so attrs_valid is stated for v401 there; (b) max_length and entity syntax
-   of plain (CString) values are properties of the bytes before unescaping and are not in StrictValid;
+   (the file version is read from them), so attrs_valid is stated for v401 there; (b) for plain (CString) values StrictValid
+   states max_length of the unescaped text; entity syntax is a property of the bytes before unescaping and is not in
+   StrictValid (see C08_entity_syntax_refuted);
    (c) StrictValid does not say that an element which must carry a value has exactly one text item — that fails,
    see C08_value_required_refuted and C08_single_text_run_refuted. *)
 Theorem C08_accepted_is_valid_partial :
